@@ -270,6 +270,24 @@ pub fn spaces(tier: Tier) -> Vec<Space<'static>> {
             float_one(f, acc);
         }
     }));
+    // whole-number and short-decimal floats: d x 10^k (the renderer writes them with an exponent and
+    // no fraction, e.g. 1e16), powers of two, and integers +- 0.5
+    sp.push(Space::new("floats: d x 10^k, 2^k, n + 0.5", 9 * 61 * 2 + 200, |i, acc| {
+        let f = if i < 9 * 61 * 2 {
+            let neg = i % 2 == 1;
+            let d = (i / 2) % 9 + 1;
+            let k = (i / 18) as i32 - 30;
+            let v: f64 = format!("{}e{}", d, k).parse().unwrap();
+            if neg { -v } else { v }
+        } else {
+            let j = i - 9 * 61 * 2;
+            if j < 100 { (2.0f64).powi(j as i32 - 20) } else { (j - 100) as f64 * 1e15 + 0.5 }
+        };
+        acc.eval();
+        acc.nontrivial += 1;
+        float_one(f, acc);
+        check_value(&RVal::Arr(vec![RVal::f(f), RVal::s("x")]), acc, true);
+    }));
     sp.push(Space::new("floats-exp-x-mantissa", 2046 * 2 * if tier.thorough() { 2000 } else { 64 }, move |i, acc| {
         let per = if tier.thorough() { 2000 } else { 64 };
         let m = i % per;
